@@ -24,6 +24,10 @@ package bn256
 //@ requires implies(e.p != nil, cpinv(e.p))
 //@ modifies e.p
 //@ modifies heap
+//@ modifies ghost(e.p.x, bigval) if e.p != nil
+//@ modifies ghost(e.p.y, bigval) if e.p != nil
+//@ modifies ghost(e.p.z, bigval) if e.p != nil
+//@ modifies ghost(e.p.t, bigval) if e.p != nil
 //@ ensures implies(result1, result0 == e && len(m) == 64 && e.p != nil)
 //@ let X = spec.beval(row(m), off(m), 32)
 //@ let Y = spec.beval(row(m), off(m) + 32, 32)
